@@ -1,0 +1,26 @@
+// Copyright Amazon.com, Inc. or its affiliates. All Rights Reserved.
+// SPDX-License-Identifier: Apache-2.0
+
+//! Verification hooks, only compiled with `--cfg metrique_verif`.
+//!
+//! A process-global callback that the verification harness installs to perturb thread
+//! schedules at named points of the concurrent code (`point(id)` is a no-op when unset).
+
+use std::sync::RwLock;
+
+type Callback = Box<dyn Fn(u32) + Send + Sync>;
+
+static CALLBACK: RwLock<Option<Callback>> = RwLock::new(None);
+
+/// Install (or with `None` remove) the callback invoked at every perturbation point.
+pub fn set_callback(callback: Option<Callback>) {
+    *CALLBACK.write().unwrap_or_else(|e| e.into_inner()) = callback;
+}
+
+/// A perturbation point with a site id; calls the installed callback, if any.
+#[inline]
+pub fn point(id: u32) {
+    if let Some(cb) = CALLBACK.read().unwrap_or_else(|e| e.into_inner()).as_ref() {
+        cb(id);
+    }
+}
